@@ -248,3 +248,362 @@ Example stable_run_somewhere :
   stable_run block_types_html (tokenize_block block_types_html 5) (S (length A)) A 1 (mkPs true) = true /\
   closed_run block_types_html (tokenize_block block_types_html 5) (S (length A)) A 1 (mkPs true) = false.
 Proof. vm_compute. split; reflexivity. Qed.
+
+(* ---- lists: a list that was ended by a line of A (not by the end of A) cannot see what follows A ---- *)
+Section Lists.
+  Variable types : list block_kind.
+  Variable B : list str.
+
+  (* item_loop ends by running out of lines *)
+  Fixpoint item_runs_off (leader : str) (after : list str) (prepend : Z) (newlines : nat) : bool :=
+    match after with
+    | [] => true
+    | next_line :: r =>
+      match parse_continuation next_line prepend with
+      | Some cont => item_runs_off leader r prepend (if str_eqb cont [10] then S newlines else O)
+      | None =>
+        if any_interrupt types BK_List after then false
+        else match parse_marker next_line with
+             | Some _ => false
+             | None => match newlines with
+                       | O => item_runs_off leader r prepend (if str_eqb next_line [10] then 1%nat else O)
+                       | _ => false
+                       end
+             end
+      end
+    end.
+
+  Lemma item_loop_stable leader : forall Y prepend buf tk nl,
+    item_runs_off leader Y prepend nl = false ->
+    item_loop types leader (Y ++ NL :: B) prepend buf tk nl = item_loop types leader Y prepend buf tk nl.
+  Proof.
+    induction Y as [|l Y IH]; intros prepend buf tk nl H; [discriminate|].
+    cbn [app item_loop item_runs_off] in *.
+    destruct (parse_continuation l prepend) as [cont|].
+    - rewrite IH by exact H. reflexivity.
+    - change (l :: Y ++ NL :: B) with (l :: Y ++ NL :: B). rewrite any_interrupt_app.
+      destruct (any_interrupt types BK_List (l :: Y)); [reflexivity|].
+      destruct (parse_marker l) as [[[[? ?] other] ?]|]; [reflexivity|].
+      destruct nl; [|reflexivity]. rewrite IH by exact H. reflexivity.
+  Qed.
+
+  Lemma count_blank_app r : has_nonblank r = true -> count_blank (r ++ NL :: B) = count_blank r /\
+                                                   skipn (count_blank r) (r ++ NL :: B) = skipn (count_blank r) r ++ NL :: B /\
+                                                   skipn (count_blank r) r <> [].
+  Proof.
+    induction r as [|x r IH]; [discriminate|]. cbn [has_nonblank existsb app count_blank]. intros H.
+    destruct (is_blank x) eqn:E.
+    - cbn [negb orb] in H. destruct (IH H) as (A1 & A2 & A3). rewrite A1. cbn [skipn]. auto.
+    - cbn [skipn]. repeat split; discriminate.
+  Qed.
+
+  Variable rec : list str -> Z -> pstate -> list pre * bool * pstate.
+
+  (* ListItem.read ends by running out of lines *)
+  Definition read_item_runs_off (after : list str) (prev : option (Z * Z * str * str)) : bool :=
+    match after with
+    | [] => true
+    | line :: r =>
+      match (match prev with Some m => Some m | None => parse_marker line end) with
+      | None => false
+      | Some (indentation, prepend, leader, content) =>
+        if is_blank content then
+          match count_blank r with
+          | S _ => negb (has_nonblank r)
+          | O => item_runs_off leader r (indentation + slen leader + 1) 0
+          end
+        else item_runs_off leader r prepend 0
+      end
+    end.
+
+  Lemma read_item_stable x X ln prev st :
+    read_item_runs_off (x :: X) prev = false ->
+    read_item types rec (x :: X ++ NL :: B) ln prev st = read_item types rec (x :: X) ln prev st.
+  Proof.
+    unfold read_item_runs_off, read_item.
+    destruct (match prev with Some m => Some m | None => parse_marker x end) as [[[[ind pp] ld] ct]|]; [|reflexivity].
+    destruct (is_blank ct).
+    - destruct (count_blank X) as [|n] eqn:Ec.
+      + intros H. assert (Ec' : count_blank (X ++ NL :: B) = 0%nat).
+        { destruct X as [|y Y]; [discriminate|]. cbn [app count_blank] in *. destruct (is_blank y); [discriminate|reflexivity]. }
+        rewrite Ec'. rewrite item_loop_stable by exact H. reflexivity.
+      + intros H. apply negb_false_iff in H. destruct (count_blank_app X H) as (A1 & A2 & A3).
+        rewrite A1, Ec. rewrite Ec in A2, A3. rewrite A2.
+        destruct (skipn (S n) X) as [|z zs]; [contradiction|]. reflexivity.
+    - intros H. rewrite item_loop_stable by exact H. reflexivity.
+  Qed.
+End Lists.
+
+Section Lists2.
+  Variable types : list block_kind.
+  Variable rec : list str -> Z -> pstate -> list pre * bool * pstate.
+  Variable B : list str.
+
+  Lemma count_blank_le r : (count_blank r <= length r)%nat.
+  Proof. induction r as [|x r IH]; cbn [count_blank length]; [lia|]. destruct (is_blank x); lia. Qed.
+
+  Lemma read_item_bound x X ln prev st it taken nm st' :
+    read_item types rec (x :: X) ln prev st = (it, taken, nm, st') -> (taken <= length (x :: X))%nat.
+  Proof.
+    unfold read_item.
+    destruct (match prev with Some m => Some m | None => parse_marker x end) as [[[[ind pp] ld] ct]|]; [|intros H; injection H as _ <- _ _; cbn [length]; lia].
+    destruct (is_blank ct).
+    - destruct (count_blank X) as [|n] eqn:Ec.
+      + destruct (item_loop types ld X _ [] 1%nat 0%nat) as [[buf tk] nm0] eqn:E. destruct (rec buf (ln + 1) st) as [[es lo] s2].
+        intros H. injection H as _ <- _ _.
+        apply item_loop_aligned in E; [|cbn [length]; lia|lia]. cbn [length] in *. lia.
+      + intros H. injection H as _ <- _ _. pose proof (count_blank_le X). cbn [length]. lia.
+    - destruct (item_loop types ld X pp [ct] 1%nat 0%nat) as [[buf tk] nm0] eqn:E. destruct (rec buf ln st) as [[es lo] s2].
+      intros H. injection H as _ <- _ _.
+      apply item_loop_aligned in E; [|cbn [length]; lia|lia]. cbn [length] in *. lia.
+  Qed.
+
+  (* List.read ends by running out of lines *)
+  Fixpoint list_runs_off (n : nat) (after : list str) (ln : Z) (leader : option str) (nm : option (Z * Z * str * str)) (st : pstate) : bool :=
+    match n with
+    | O => false
+    | S n' =>
+      if read_item_runs_off types after nm then true
+      else
+        let '(item, taken, nm', st') := read_item types rec after ln nm st in
+        let item_leader := match item with PItem _ _ _ _ _ l => l | _ => [] end in
+        let ok := match leader with None => true | Some l => same_marker_type l item_leader end in
+        if negb ok then false
+        else match nm' with
+             | None => false
+             | Some _ => list_runs_off n' (skipn taken after) (ln + nlines taken)
+                                       (match leader with None => Some item_leader | Some _ => leader end) nm' st'
+             end
+    end.
+
+  Lemma read_list_stable : forall n after ln leader nm items consumed st,
+    list_runs_off n after ln leader nm st = false ->
+    read_list types rec n (after ++ NL :: B) ln leader nm items consumed st = read_list types rec n after ln leader nm items consumed st.
+  Proof.
+    induction n as [|n IH]; intros after ln leader nm items consumed st H; [reflexivity|].
+    cbn [list_runs_off] in H. destruct after as [|x X]; [discriminate|].
+    destruct (read_item_runs_off types (x :: X) nm) eqn:Er; [discriminate|].
+    cbn [read_list]. change ((x :: X) ++ NL :: B) with (x :: X ++ NL :: B).
+    rewrite (read_item_stable types B rec x X ln nm st Er).
+    destruct (read_item types rec (x :: X) ln nm st) as [[[item taken] nm'] st'] eqn:Ei.
+    destruct (negb _); [reflexivity|].
+    destruct nm' as [mk|]; [|reflexivity].
+    pose proof (read_item_bound x X ln nm st _ _ _ _ Ei) as Hb.
+    change (x :: X ++ NL :: B) with ((x :: X) ++ NL :: B). rewrite skipn_app.
+    replace (taken - length (x :: X))%nat with 0%nat by lia. cbn [skipn]. apply IH. exact H.
+  Qed.
+End Lists2.
+
+Section Lists3.
+  Variable types : list block_kind.
+  Variable rec : list str -> Z -> pstate -> list pre * bool * pstate.
+
+  Lemma skipn_len_lt {A} (l : list A) k : (1 <= k)%nat -> l <> [] -> (length (skipn k l) < length l)%nat.
+  Proof. intros Hk Hl. rewrite skipn_length. destruct l; [contradiction|cbn [length]; lia]. Qed.
+
+  (* neither fuel is what ends the loop over the items *)
+  Lemma read_list_fuel : forall n m after ln leader nm items consumed st,
+    (length after < n)%nat -> (n <= m)%nat ->
+    read_list types rec n after ln leader nm items consumed st = read_list types rec m after ln leader nm items consumed st.
+  Proof.
+    induction n as [|n IH]; intros m after ln leader nm items consumed st Hn Hm; [lia|].
+    destruct m as [|m]; [lia|]. cbn [read_list].
+    destruct (read_item types rec after ln nm st) as [[[item taken] nm'] st'] eqn:Ei.
+    destruct (negb _); [reflexivity|]. destruct nm' as [mk|]; [|reflexivity].
+    destruct after as [|x X].
+    - cbn [read_item] in Ei. injection Ei as _ _ E _. discriminate.
+    - pose proof (read_item_progress types rec x X ln nm st _ _ _ _ Ei) as Hp.
+      apply IH; [|lia]. pose proof (skipn_len_lt (x :: X) taken Hp (ltac:(discriminate))). lia.
+  Qed.
+
+  Lemma list_runs_off_fuel : forall n m after ln leader nm st,
+    (length after < n)%nat -> (n <= m)%nat ->
+    list_runs_off types rec n after ln leader nm st = list_runs_off types rec m after ln leader nm st.
+  Proof.
+    induction n as [|n IH]; intros m after ln leader nm st Hn Hm; [lia|].
+    destruct m as [|m]; [lia|]. cbn [list_runs_off].
+    destruct (read_item_runs_off types after nm); [reflexivity|].
+    destruct (read_item types rec after ln nm st) as [[[item taken] nm'] st'] eqn:Ei.
+    destruct (negb _); [reflexivity|]. destruct nm' as [mk|]; [|reflexivity].
+    destruct after as [|x X].
+    - cbn [read_item] in Ei. injection Ei as _ _ E _. discriminate.
+    - pose proof (read_item_progress types rec x X ln nm st _ _ _ _ Ei) as Hp.
+      apply IH; [|lia]. pose proof (skipn_len_lt (x :: X) taken Hp (ltac:(discriminate))). lia.
+  Qed.
+
+  Lemma read_list_bound : forall n after ln leader nm items consumed st its c st',
+    read_list types rec n after ln leader nm items consumed st = (its, c, st') -> (c <= consumed + length after)%nat.
+  Proof.
+    induction n as [|n IH]; intros after ln leader nm items consumed st its c st' H; cbn [read_list] in H.
+    - injection H as _ <- _. lia.
+    - destruct (read_item types rec after ln nm st) as [[[item taken] nm'] s1] eqn:Ei.
+      assert (Hb : (taken <= length after)%nat).
+      { destruct after as [|x X]; [cbn [read_item] in Ei; injection Ei as _ <- _ _; lia|].
+        eapply read_item_bound. exact Ei. }
+      destruct (negb _); [injection H as _ <- _; lia|].
+      destruct nm' as [mk|]; [|injection H as _ <- _; lia].
+      apply IH in H. rewrite skipn_length in H. lia.
+  Qed.
+
+  Variable B : list str.
+
+  Definition is_plist (p : pre) : bool := match p with PList _ _ => true | _ => false end.
+
+  Lemma start_read_list_app x X ln st :
+    list_runs_off types rec (S (length (x :: X))) (x :: X) ln None None st = false ->
+    start_read types rec BK_List (x :: X ++ NL :: B) ln st = start_read types rec BK_List (x :: X) ln st /\
+    (forall p c st', start_read types rec BK_List (x :: X) ln st = Some (p, c, st') -> (c <= length (x :: X))%nat).
+  Proof.
+    intros H. cbn [start_read]. destruct (list_start x); [|split; [reflexivity|discriminate]].
+    set (M := S (length (x :: X ++ NL :: B))).
+    assert (HM : (S (length (x :: X)) <= M)%nat) by (unfold M; cbn [length]; rewrite app_length; lia).
+    assert (E : read_list types rec M (x :: X ++ NL :: B) ln None None [] 0%nat st =
+                read_list types rec (S (length (x :: X))) (x :: X) ln None None [] 0%nat st).
+    { change (x :: X ++ NL :: B) with ((x :: X) ++ NL :: B).
+      rewrite (read_list_stable types rec B M (x :: X) ln None None [] 0%nat st).
+      - symmetry. apply read_list_fuel; [lia|exact HM].
+      - rewrite <- (list_runs_off_fuel (S (length (x :: X))) M) by (lia || exact HM). exact H. }
+    rewrite E.
+    destruct (read_list types rec (S (length (x :: X))) (x :: X) ln None None [] 0%nat st) as [[items c] st'] eqn:Er.
+    split; [reflexivity|]. intros p c0 st0 H0. injection H0 as _ <- _.
+    apply read_list_bound in Er. lia.
+  Qed.
+End Lists3.
+
+Section Level3.
+  Variable types : list block_kind.
+  Variable rec : list str -> Z -> pstate -> list pre * bool * pstate.
+  Variable B : list str.
+
+  (* one step of the loop over A: a closed block; a leaf block after which A goes on; a list ended by a line of A *)
+  Definition step_ok3 (p : pre) (c : nat) (X : list str) (ln : Z) (st : pstate) : bool :=
+    closed_pre p || (leafy_pre p && has_nonblank (skipn c X)) ||
+    (is_plist p && negb (list_runs_off types rec (S (length X)) X ln None None st)).
+
+  Lemma start_read_plist k after ln st p c st' :
+    start_read types rec k after ln st = Some (p, c, st') -> is_plist p = true -> k = BK_List.
+  Proof.
+    destruct after as [|x X]; [discriminate|]. intros H Hp.
+    destruct k; try reflexivity; cbn [start_read] in H; exfalso.
+    - destruct (blockcode_start x); [|discriminate]. destruct (blockcode_read (x :: X)). injection H as <- _ _. discriminate.
+    - destruct (heading_start x) as [[[? ?] ?]|]; [|discriminate]. injection H as <- _ _. discriminate.
+    - destruct (quote_start x); [|discriminate]. destruct (quote_lines types (x :: X)).
+      destruct (rec _ _ _) as [[? ?] ?]. injection H as <- _ _. discriminate.
+    - destruct (codefence_start x) as [[[[i l] f] g]|]; [|discriminate]. destruct (fence_loop X i l [] 1%nat). injection H as <- _ _. discriminate.
+    - destruct (thematic_start x); [|discriminate]. injection H as <- _ _. discriminate.
+    - destruct (table_start x); [|discriminate]. destruct (table_read (x :: X)); [|discriminate]. injection H as <- _ _. discriminate.
+    - destruct (footnote_start x); [|discriminate]. destruct (footnote_read (x :: X)) as [[? ?]|]; [|discriminate]. injection H as <- _ _. discriminate.
+    - destruct (paragraph_start x); [|discriminate]. destruct (para_loop _ _ _ _ _) as [[? ?] []]; injection H as <- _ _; discriminate.
+    - destruct (htmlblock_start x) as [[? e]|]; [|discriminate]. destruct (html_loop (x :: X) e [] 0%nat). injection H as <- _ _. discriminate.
+    - destruct (blankline_start x); [|discriminate]. injection H as <- _ _. discriminate.
+    - destruct (footnote_start x); [|discriminate]. destruct (footnote_read (x :: X)) as [[? ?]|]; [|discriminate]. injection H as <- _ _. discriminate.
+  Qed.
+
+  Lemma try_types_app3 x X ln st : forall ts,
+    (forall p c st', try_types types rec ts (x :: X) ln st = Some (p, c, st') -> step_ok3 p c (x :: X) ln st = true ->
+       try_types types rec ts (x :: X ++ NL :: B) ln st = Some (p, c, st') /\ (c <= length (x :: X))%nat) /\
+    (try_types types rec ts (x :: X) ln st = None -> try_types types rec ts (x :: X ++ NL :: B) ln st = None).
+  Proof.
+    induction ts as [|k ts [IH1 IH2]]; cbn [try_types]; [split; [discriminate|trivial]|].
+    destruct (start_read types rec k (x :: X) ln st) as [[[p0 c0] st0]|] eqn:E.
+    - split; [|discriminate]. intros p c st' H Hp. injection H as -> -> ->.
+      unfold step_ok3 in Hp. apply orb_true_iff in Hp as [Hp|Hp]; [apply orb_true_iff in Hp as [Hp|Hp]|].
+      + pose proof (start_read_closed _ _ _ _ _ _ _ _ _ E Hp) as Hk.
+        rewrite start_read_app by exact Hk. rewrite E.
+        destruct (start_read_bound _ _ _ _ _ _ _ _ _ E Hk) as [Hb _]. auto.
+      + apply andb_true_iff in Hp as [Hl Hn].
+        pose proof (start_read_leafy _ _ _ _ _ _ _ _ _ E Hl) as Hk.
+        destruct (start_read_leaf_app types rec B k x X ln st p c st' Hk E Hn) as (E' & Hb & _).
+        rewrite E'. auto.
+      + apply andb_true_iff in Hp as [Hl Hn]. apply negb_true_iff in Hn.
+        pose proof (start_read_plist _ _ _ _ _ _ _ E Hl) as ->.
+        destruct (start_read_list_app types rec B x X ln st Hn) as [E' Hb].
+        rewrite E', E. split; [reflexivity|]. apply (Hb _ _ _ E).
+    - rewrite (start_read_none_app _ _ _ _ _ _ _ _ E). split; assumption.
+  Qed.
+
+  Fixpoint stable_run3 (n : nat) (A : list str) (ln : Z) (st : pstate) : bool :=
+    match n with
+    | O => true
+    | S n' =>
+      match A with
+      | [] => true
+      | _ :: rest =>
+        match try_types types rec types A ln st with
+        | Some (p, c, st') =>
+          step_ok3 p c A ln st && (match c with O => false | _ => stable_run3 n' (skipn c A) (ln + nlines c) st' end)
+        | None => stable_run3 n' rest (ln + 1) st
+        end
+      end
+    end.
+
+  Lemma dispatch_app3 : forall n A ln acc lo st m,
+    (length A < n)%nat -> (length (A ++ NL :: B) < m)%nat -> stable_run3 n A ln st = true ->
+    let R := dispatch_loop types rec n A ln acc lo st in
+    dispatch_loop types rec m (A ++ NL :: B) ln acc lo st =
+    dispatch_loop types rec m (NL :: B) (ln + nlines (length A)) (rev (fst (fst R))) (snd (fst R)) (snd R).
+  Proof.
+    induction n as [|n IH]; intros A ln acc lo st m Hn Hm Hc; [lia|].
+    destruct A as [|x X].
+    - cbv zeta. cbn [app length nlines Z.of_nat]. rewrite dispatch_nil. cbn [fst snd]. rewrite rev_involutive, Z.add_0_r. reflexivity.
+    - destruct m as [|m]; [cbn [length] in Hm; lia|].
+      cbn [stable_run3] in Hc. cbv zeta. set (K := dispatch_loop types rec (S m) (NL :: B)). cbn [dispatch_loop app].
+      destruct (try_types_app3 x X ln st types) as [T1 T2].
+      destruct (try_types types rec types (x :: X) ln st) as [[[p c] st']|] eqn:E.
+      + apply andb_true_iff in Hc as [Hp Hc]. destruct c as [|c]; [discriminate|].
+        destruct (T1 _ _ _ eq_refl Hp) as (E' & Hb). rewrite E'.
+        assert (Esk : skipn (S c) (x :: X ++ NL :: B) = skipn (S c) (x :: X) ++ NL :: B).
+        { change (x :: X ++ NL :: B) with ((x :: X) ++ NL :: B). rewrite skipn_app.
+          replace (S c - length (x :: X))%nat with 0%nat by lia. reflexivity. }
+        rewrite Esk.
+        assert (Hl : (length (skipn (S c) (x :: X)) = length (x :: X) - S c)%nat) by apply skipn_length.
+        assert (P1 : (length (skipn (S c) (x :: X)) < n)%nat) by (cbn [length] in *; lia).
+        assert (P2 : (length (skipn (S c) (x :: X) ++ NL :: B) < m)%nat) by (rewrite app_length in *; cbn [length] in *; lia).
+        pose proof (IH (skipn (S c) (x :: X)) (ln + nlines (S c)) (p :: acc) lo st' m P1 P2 Hc) as IHa.
+        cbv zeta in IHa. rewrite IHa.
+        rewrite (fuel_suffices types rec m (S m)) by (rewrite app_length in P2; cbn [length] in *; lia).
+        subst K. f_equal. unfold nlines. rewrite Hl. cbn [length] in *. lia.
+      + rewrite (T2 eq_refl).
+        assert (P1 : (length X < n)%nat) by (cbn [length] in *; lia).
+        assert (P2 : (length (X ++ NL :: B) < m)%nat) by (rewrite app_length in *; cbn [length] in *; lia).
+        pose proof (IH X (ln + 1) acc true st m P1 P2 Hc) as IHa.
+        cbv zeta in IHa. rewrite IHa.
+        rewrite (fuel_suffices types rec m (S m)) by (rewrite app_length in P2; cbn [length] in *; lia).
+        subst K. f_equal. unfold nlines. cbn [length]. lia.
+  Qed.
+End Level3.
+
+(* the blocks of A + blank line + B are those of A, then those of B read from the state A leaves behind *)
+Theorem any_blocks_independent types f A B st :
+  no_blankline_kind types = true ->
+  stable_run3 types (tokenize_block types f) (S (length A)) A 1 st = true ->
+  let '(esA, _, stA) := tokenize_block types (S f) A 1 st in
+  entries (tokenize_block types (S f) (A ++ NL :: B) 1 st) =
+  esA ++ map (shift_pre (Z.of_nat (length A) + 1)) (entries (tokenize_block types (S f) B 1 stA)).
+Proof.
+  intros Hnb Hc. cbn [tokenize_block].
+  set (rec := tokenize_block types f).
+  pose proof (dispatch_app3 types rec B (S (length A)) A 1 [] false st (S (length (A ++ NL :: B))) (ltac:(lia)) (ltac:(lia)) Hc) as E.
+  cbv zeta in E. rewrite E.
+  destruct (dispatch_loop types rec (S (length A)) A 1 [] false st) as [[esA loA] stA] eqn:EA.
+  cbn [fst snd] in *.
+  rewrite dispatch_nl by exact Hnb.
+  destruct (dispatch_acc types rec (length (A ++ NL :: B)) B (1 + nlines (length A) + 1) (rev esA) true stA) as [Eacc _].
+  rewrite Eacc, rev_involutive. f_equal.
+  destruct (dispatch_loose_irrelevant types rec (length (A ++ NL :: B)) B (1 + nlines (length A) + 1) [] true false stA) as [El _].
+  rewrite El.
+  rewrite <- (fuel_suffices types rec (S (length B)) (length (A ++ NL :: B)) B) by (rewrite ?app_length; cbn [length]; lia).
+  replace (1 + nlines (length A) + 1) with (1 + (Z.of_nat (length A) + 1)) by (unfold nlines; lia).
+  pose proof (dispatch_shift types (Z.of_nat (length A) + 1) rec) as DS.
+  assert (RS : forall buf ln st, rec buf (ln + (Z.of_nat (length A) + 1)) st = shift_res (Z.of_nat (length A) + 1) (rec buf ln st)).
+  { intros. apply tokenize_shift. }
+  specialize (DS RS (S (length B)) B 1 [] false stA). cbn [map] in DS. rewrite DS.
+  destruct (dispatch_loop types rec (S (length B)) B 1 [] false stA) as [[esB loB] stB]. reflexivity.
+Qed.
+
+(* non-vacuity: a list before a closing paragraph; the list is ended by the paragraph's line *)
+Example stable_run3_somewhere :
+  let A := [ $"- a" ++ [10]; $"- b" ++ [10]; $"  c" ++ [10]; [10]; $"para" ++ [10] ] in
+  stable_run3 block_types_html (tokenize_block block_types_html 5) (S (length A)) A 1 (mkPs true) = true /\
+  stable_run block_types_html (tokenize_block block_types_html 5) (S (length A)) A 1 (mkPs true) = false.
+Proof. vm_compute. split; reflexivity. Qed.
